@@ -39,6 +39,15 @@ def _ip_consts():
     }
 
 
+@unit("as_num")
+def _as_num():
+    from netconan.sensitive_item_removal import AsNumberAnonymizer
+
+    b = list(AsNumberAnonymizer._AS_NUM_BOUNDARIES)
+    assert all(isinstance(x, int) for x in b)
+    return {"AS_NUM_BOUNDARIES": b}
+
+
 @unit("juniper")
 def _juniper():
     from netconan.utils import juniper_secrets as js
@@ -52,6 +61,106 @@ def _juniper():
         "ENCODING": js.ENCODING,
         "FIXEDC": [[ord(c) for c in js._fixedc(i)] for i in range(5)],
         "VALID": js.VALID,
+    }
+
+
+@unit("rx")
+def _rx():
+    import ast
+    import inspect
+    import os
+
+    sys.path.insert(0, os.path.dirname(os.path.abspath(__file__)))
+    import rxgen
+    from netconan import ip_anonymization as ipa
+    from netconan import sensitive_item_removal as sir
+    from netconan.utils import juniper_secrets as js
+
+    E = rxgen.Emitter()
+    out = []
+
+    def one(name, pat, flags=0):
+        t, ngroups, gidx = E.pattern(pat, flags)
+        out.append("Definition %s : re := %s." % (name, t))
+        return gidx
+
+    one("IPV4_RX", ipa.IPv4_PATTERN.pattern, ipa.IPv4_PATTERN.flags)
+    one("IPV6_RX", ipa.IPv6_PATTERN.pattern, ipa.IPv6_PATTERN.flags)
+    one("DROP_ZEROS_RX", ipa.IpAnonymizer._DROP_ZEROS_PATTERN.pattern, ipa.IpAnonymizer._DROP_ZEROS_PATTERN.flags)
+    one("JUNIPER_VALID_RX", js.VALID, 0)
+    # the ordered list of sensitive-line regex groups: (regex, secret group index or None, index of the named group "prefix" or None)
+    groups = sir.generate_default_sensitive_item_regexes()
+    gl = []
+    for gi, grp in enumerate(groups):
+        items = []
+        for ri, (cre, num) in enumerate(grp):
+            nm = "PWD_RX_%d_%d" % (gi, ri)
+            one(nm, cre.pattern, cre.flags)
+            pidx = cre.groupindex.get("prefix")
+            assert num is None or (isinstance(num, int) and 0 <= num <= cre.groups)
+            items.append("(%s, %s, %s)" % (nm, "None" if num is None else "Some %d%%nat" % num, "None" if pidx is None else "Some %d%%nat" % pidx))
+        gl.append("[" + "; ".join(items) + "]")
+    out.append("Definition PWD_REGEXES : list (list (re * option nat * option nat)) := [%s]." % ";\n  ".join(gl))
+    # _check_sensitive_item_format: a default, then an ordered list of `if re.match(<literal>, val): item_format = <enum member>`
+    fn = ast.parse(inspect.getsource(sir._check_sensitive_item_format)).body[0]
+    body = [st for st in fn.body if not (isinstance(st, ast.Expr) and isinstance(st.value, ast.Constant))]
+    first, ifs, last = body[0], body[1:-1], body[-1]
+    def member(node):
+        assert isinstance(node, ast.Attribute) and isinstance(node.value, ast.Name) and node.value.id == "_sensitive_item_formats"
+        return sir._sensitive_item_formats[node.attr].value
+    assert isinstance(first, ast.Assign) and first.targets[0].id == "item_format"
+    default = member(first.value)
+    assert isinstance(last, ast.Return) and last.value.id == "item_format"
+    checks = []
+    for k, st in enumerate(ifs):
+        assert isinstance(st, ast.If) and not st.orelse and len(st.body) == 1
+        call = st.test
+        assert isinstance(call, ast.Call) and call.func.value.id == "re" and call.func.attr == "match" and call.args[1].id == "val" and len(call.args) == 2
+        pat = call.args[0].value
+        asg = st.body[0]
+        assert isinstance(asg, ast.Assign) and asg.targets[0].id == "item_format"
+        nm = "FORMAT_RX_%d" % k
+        one(nm, pat, 0)
+        checks.append("(%s, %d%%N)" % (nm, member(asg.value)))
+    out.append("Definition FORMAT_DEFAULT : N := %d%%N." % default)
+    out.append("Definition FORMAT_CHECKS : list (re * N) := [%s]." % "; ".join(checks))
+    out.append("Definition FORMAT_ENUM : list (N * N) := [%s]. (* index in (cisco_type7, numeric, hexadecimal, md5, text, sha512, juniper_type9) -> value *)" % "; ".join(
+        "(%d%%N, %d%%N)" % (i, sir._sensitive_item_formats[n].value) for i, n in enumerate(["cisco_type7", "numeric", "hexadecimal", "md5", "text", "sha512", "juniper_type9"])))
+    # run-time built patterns on sample lists: the model's own builders are checked against these
+    a = sir.AsNumberAnonymizer(["12", "345", "12345"], "s")
+    one("AS_SAMPLE_RX", a.as_num_regex.pattern, a.as_num_regex.flags)
+    w = sir.SensitiveWordAnonymizer(["ab", "Cde", "k-s_9"], "s", [])
+    one("WORD_SAMPLE_RX", w.sens_regex.pattern, w.sens_regex.flags)
+    out.append("Definition WORD_SAMPLE_PATTERN : list N := [%s]." % "; ".join("%d%%N" % ord(c) for c in w.sens_regex.pattern))
+    # case-insensitive equivalents of every printable ASCII character, as ranges
+    ic = []
+    for c in range(32, 127):
+        rs = rxgen.norm([(x, x) for x in rxgen.icase_set(c)])
+        ic.append("(%d%%N, [%s])" % (c, "; ".join("(%d%%N, %d%%N)" % r for r in rs)))
+    out.append("Definition ICASE_ASCII : list (N * list (N * N)) := [%s]." % "; ".join(ic))
+    cats = rxgen.categories()
+    out.append("Definition CS_SPACE : list (N * N) := [%s]." % "; ".join("(%d%%N, %d%%N)" % r for r in cats["space"]))
+    out.append("Definition CS_NOT_DIGIT : list (N * N) := [%s]." % "; ".join("(%d%%N, %d%%N)" % r for r in rxgen.complement(cats["digit"])))
+    return {"coq": E.set_defs() + "\n".join(out) + "\n"}
+
+
+@unit("text_consts")
+def _text_consts():
+    from netconan import sensitive_item_removal as sir
+    from netconan import anonymize_files as af
+    from netconan.default_reserved_words import default_reserved_words
+
+    def s(x):
+        return [ord(c) for c in x]
+
+    return {
+        "LINE_SCRUBBED_MESSAGE": s(sir._LINE_SCRUBBED_MESSAGE),
+        "ENCLOSING_HEAD": [s(x) for x in sir._PASSWORD_ENCLOSING_HEAD_TEXT],
+        "ENCLOSING_TAIL": [s(x) for x in sir._PASSWORD_ENCLOSING_TAIL_TEXT],
+        "ANON_SENSITIVE_WORD_LEN": sir._ANON_SENSITIVE_WORD_LEN,
+        "RESERVED_WORDS": sorted(s(x) for x in default_reserved_words),
+        "DEFAULT_SALT_LENGTH": af._DEFAULT_SALT_LENGTH,
+        "CHAR_CHOICES": s(af._CHAR_CHOICES),
     }
 
 
